@@ -264,7 +264,10 @@ def eval (E : EvalEnv) : Sp → Outc
       | .val => eval E x                             -- second item
       | .exc o => .exc o)
   | .frame x => frameG E (eval E x)
-  | .first x => frameG E (eval E x)      -- `Spec(x).glom(item, scope=S)`: a nested `_glom` on the first item
+  | .first x => frameG E (match eval E x with   -- `next(filter(key, items), default)`, key = `Spec(x).glom(item, scope=S)`
+      | .val => .val
+      | .exc o => if E.caught o ["StopIteration"] then .val   -- iterator protocol: `next` takes it for exhaustion
+                  else .exc o)
   | .coal xs skip dflt => frameG E (evalCoal E xs (skip.getD E.F.coalesceSkipDefault) dflt)
 /-- the `for subspec in spec` loops of `_handle_tuple` / `_handle_dict` -/
 def evalSeq (E : EvalEnv) : List Sp → Outc
